@@ -90,6 +90,12 @@ pub struct Ctl {
     inner: Mutex<Inner>,
 }
 
+/// Wake tracing for debugging replays (env DBGWAKE).
+fn debug_wakes() -> bool {
+    static ON: std::sync::OnceLock<bool> = std::sync::OnceLock::new();
+    *ON.get_or_init(|| std::env::var("DBGWAKE").is_ok())
+}
+
 thread_local! {
     static NEXT_NAME: RefCell<Option<(String, Option<u8>)>> = const { RefCell::new(None) };
 }
@@ -239,10 +245,12 @@ impl Controller for Ctl {
                     let d = *d;
                     inner.next_dev += 1;
                     if d.expect_enabled as usize != enabled.len() || d.task as usize >= enabled.len() {
+                        let names: Vec<String> = enabled.iter().map(|(_, i)| format!("{}#{}", inner.tasks[*i].name, i)).collect();
                         inner.divergence = Some(format!(
-                            "step {step}: deviation expects {} enabled tasks, found {}",
+                            "step {step}: deviation expects {} enabled tasks, found {}: {:?}",
                             d.expect_enabled,
-                            enabled.len()
+                            enabled.len(),
+                            names
                         ));
                         inner.frozen = true;
                         return Decision::Park;
@@ -300,6 +308,9 @@ impl Controller for Ctl {
         if inner.tasks[id].state == TState::Idle {
             let seq = ((inner.step as u64) << 24) | id as u64;
             inner.tasks[id].state = TState::Woken(seq);
+            if debug_wakes() {
+                eprintln!("W step {} running {:?} wakes {}#{}", inner.step, inner.running.map(|r| inner.tasks[r].name.clone()), inner.tasks[id].name, id);
+            }
         }
     }
 
